@@ -102,7 +102,7 @@ theorem operand_roundtrip (o : Op) (h : lexOp o = true) (c : Nat) :
     parseOperand (.insn c) (toks (ltOp o) ++ [.nl]) = .ok (some (ropOfOp o), [.nl]) := by
   constructor
   · have hv : AllValid (ltOp o ++ [tNl]) := AllValid.append (allValid_ltOp h) (AllValid.cons valid_tNl AllValid.nil)
-    have hok : okLT (ltOp o ++ [tNl]) = true := (OkD.appendC (okD_ltOp o) (by simp) (OkC.p _ _)).okLT
+    have hok : okLT (ltOp o ++ [tNl]) = true := (OkD.appendC (okD_ltOp o) (by simp [tNl, LT.isDelimStart, isDelim]) (OkC.p _ _)).okLT
     simpa [tNl, LT.toks] using lexAll_flatten _ hv hok
   · exact parseOperand_op (plain_heads.2.2.2.2.2.2.2.2 c) o (Or.inr rfl) []
 
